@@ -70,6 +70,14 @@ func main() {
 			}
 		}
 		workerMain(os.Args[2], os.Args[3], seed, idx, os.Args[6])
+	case "fnworker":
+		if len(os.Args) < 8 {
+			usage()
+		}
+		seed, _ := strconv.ParseUint(os.Args[4], 10, 64)
+		shard, _ := strconv.Atoi(os.Args[5])
+		nshards, _ := strconv.Atoi(os.Args[6])
+		fnWorkerMain(os.Args[2], os.Args[3], seed, shard, nshards, os.Args[7])
 	case "case":
 		if len(os.Args) < 6 {
 			usage()
@@ -133,6 +141,11 @@ func replay(dir string) int {
 	if rp, ok := replayers[meta.Prop]; ok {
 		return rp(dir, b)
 	}
+	if meta.Index >= 1000000 {
+		if rc := replayFnShard(meta.Prop, meta.Tier, meta.Seed, meta.Index, dir); rc >= 0 {
+			return rc
+		}
+	}
 	res := runCaseByIndex(meta.Prop, meta.Tier, meta.Seed, meta.Index, "")
 	out, _ := json.MarshalIndent(res, "", " ")
 	fmt.Println(string(out))
@@ -190,6 +203,8 @@ var simProps = map[string]simProp{
 		Rule:   "cases = short runs over textures x density classes x C_org x stones x explicit values x PTF 1-4 x groundwater histories; parameter ordering checked after input and twice a day, parameter vector compared whenever a groundwater level recurs; non-trivial = ran >2 days",
 		Floors: []string{"parameter_checks", "route_table", "route_explicit", "route_ptf", "groundwater_level_recurrences"}},
 		func() []Monitor { return []Monitor{&monC15{}} }},
+	"C20": {checkSpec{Prop: "C20", Level: "exploration", NQuick: 200, NThorough: 3000},
+		func() []Monitor { return []Monitor{&monC20{}} }},
 	"C19": {checkSpec{Prop: "C19", Level: "exploration", NQuick: 160, NThorough: 3000,
 		Rule:   "cases = generated projects over density classes / measured densities, humus, moisture states (injection), cold and hot climates; every layer temperature checked against the running envelope of imposed boundary values each day and the diffusion number of the explicit scheme against 1/2; non-trivial = >30 days and >=2 layers",
 		Floors: []string{"days", "days_frost_surface", "days_hot_surface", "days_radiation_surface_formula"}},
@@ -197,11 +212,11 @@ var simProps = map[string]simProp{
 }
 
 func runCheck(prop, tier string, seed uint64) int {
-	if sp, ok := simProps[prop]; ok {
-		return runSimCheck(sp.spec, tier, seed)
-	}
 	if f, ok := otherChecks[prop]; ok {
 		return f(tier, seed)
+	}
+	if sp, ok := simProps[prop]; ok {
+		return runSimCheck(sp.spec, tier, seed)
 	}
 	fmt.Println("INCONCLUSIVE: no check registered for", prop)
 	return 2
